@@ -97,13 +97,19 @@ func scale(v int64) int {
 	return n
 }
 
+// findScaleIdx returns the largest scale that divides every value EncodeInt64sWithScale
+// stores: the first element and the (wrapping) differences of neighbours. A difference that
+// overflowed int64 is in general not a multiple of the scale its two operands share, so the
+// scale has to be taken from the differences themselves.
 func findScaleIdx(int64s []int64) int {
 	var idx = len(scales) - 1
+	var prev int64
 	for _, i := range int64s {
-		v := scale(i)
+		v := scale(i - prev)
 		if v < idx {
 			idx = v
 		}
+		prev = i
 	}
 	return idx
 }
